@@ -18,6 +18,7 @@ nowhere else in the function and the `while` has no `else`.
 from __future__ import annotations
 
 import ast
+from collections import Counter
 
 
 def _is_true(e):
@@ -554,3 +555,86 @@ def desugar_walrus(tree: ast.AST) -> int:
         if isinstance(node, ast.Module):
             rewrite(node.body)
     return n
+
+
+# ---------------------------------------------------------------------------------------------------------------------
+# Annotated assignments: `x: T = v` is read as `x = v`, a bare declaration `x: T` as `pass`.  The annotation of a local is
+# never evaluated, that of a class/module attribute has no bearing on any rule.
+
+
+def deannotate(tree: ast.AST) -> int:
+    n = 0
+    for node in ast.walk(tree):
+        for fld in ('body', 'orelse', 'finalbody', 'handlers'):
+            blk = getattr(node, fld, None)
+            if not isinstance(blk, list):
+                continue
+            for i, st in enumerate(blk):
+                if isinstance(st, ast.AnnAssign):
+                    if st.value is not None:
+                        new = ast.Assign(targets=[st.target], value=st.value, type_comment=None)
+                    else:
+                        new = ast.Pass()
+                    blk[i] = ast.copy_location(new, st)
+                    n += 1
+    return n
+
+
+# ---------------------------------------------------------------------------------------------------------------------
+# Import aliases: `import threading as th` / `from time import perf_counter as clock` are read as the plain imports, the
+# uses renamed accordingly -- exact when the alias is bound nowhere else in the module and the plain name is free.
+
+
+def canonical_imports(tree: ast.AST) -> int:
+    bound = Counter()
+    for n in ast.walk(tree):
+        if isinstance(n, ast.Name) and isinstance(n.ctx, (ast.Store, ast.Del)):
+            bound[n.id] += 1
+        elif isinstance(n, ast.arguments):
+            for a in n.posonlyargs + n.args + n.kwonlyargs + ([n.vararg] if n.vararg else []) + ([n.kwarg] if n.kwarg else []):
+                bound[a.arg] += 1
+        elif isinstance(n, (ast.FunctionDef, ast.AsyncFunctionDef, ast.ClassDef)):
+            bound[n.name] += 1
+        elif isinstance(n, ast.ExceptHandler) and n.name:
+            bound[n.name] += 1
+        elif isinstance(n, (ast.Import, ast.ImportFrom)):
+            for a in n.names:
+                bound[a.asname or a.name.split('.')[0]] += 1
+    used = {n.id for n in ast.walk(tree) if isinstance(n, ast.Name)}
+    mapping = {}
+    for st in ast.walk(tree):
+        if isinstance(st, ast.Import):
+            for a in st.names:
+                if a.asname and a.asname != a.name and bound[a.asname] == 1:
+                    head = a.name.split('.')[0]
+                    if bound[head] == 0:
+                        mapping[a.asname] = a.name
+                        a.asname = None
+                        bound[head] += 1
+        elif isinstance(st, ast.ImportFrom):
+            for a in st.names:
+                if a.asname and a.asname != a.name and bound[a.asname] == 1 and bound[a.name] == 0 and a.name not in used:
+                    mapping[a.asname] = a.name
+                    a.asname = None
+                    bound[a.name] += 1
+    if not mapping:
+        return 0
+
+    def expr_of(dotted_name, ref):
+        parts = dotted_name.split('.')
+        e = ast.Name(id=parts[0], ctx=ast.Load())
+        for p in parts[1:]:
+            e = ast.Attribute(value=e, attr=p, ctx=ast.Load())
+        return ast.copy_location(e, ref)
+
+    class T(ast.NodeTransformer):
+        def visit_Name(self, n):
+            if n.id in mapping and isinstance(n.ctx, ast.Load):
+                new = expr_of(mapping[n.id], n)
+                for sub in ast.walk(new):
+                    ast.copy_location(sub, n)
+                return new
+            return n
+
+    T().visit(tree)
+    return len(mapping)
